@@ -30,7 +30,8 @@ EDGE_DATES = ["2020-12-31", "2021-01-03", "2021-01-04", "2024-02-29", "1969-12-3
               "2016-01-03", "0001-01-01", "9999-12-31", "1999-12-31", "2000-01-01", "1900-02-28"]
 PATTERNS = ["[a-z]", r"\d+", "x*", "$", "^", "(a)(b)?", r"\s+", ".", "a|b", "(?P<n>é)", "a", "ab", "b", "é", "1", " "]
 STRINGS = ["", "a", "ab", "abc abc", "A1 b22", "é", "日本 x", "xxx", " ", "a\nb", "12", "AB", "aAbB", "É a",
-           "ab\x00", "\x00a", "a\x00b", "a" * 60, "😀a"]      # NULs (fixed-width strings drop trailing ones), long, astral
+           "ab\x00", "\x00a", "a\x00b", "a" * 60, "😀a",
+           "a\x00c", "a\x00a", "\x00b"]          # equal up to an embedded NUL, different after it      # NULs (fixed-width strings drop trailing ones), long, astral
 UNITS = {"D": "d", "s": "ts", "ms": "tm", "us": "t"}
 
 
